@@ -1319,7 +1319,9 @@ func ruleHashZero(w *World, r *Report, nt *nodeTypes) {
 					continue
 				}
 				if strip(e) != ssa.Value(recv) {
-					other = false
+					// some other value chosen on an edge where the receiver is not used as it is
+					// (math.Copysign(0, 1), a named constant …): taken as the folded value
+					zeroEdge = true
 					continue
 				}
 				// the predecessor edge must be the false side of `recv == 0` (or true side of !=)
